@@ -104,7 +104,7 @@ func TestSeqExtensionAgainstNativeGo(t *testing.T) {
 
 func TestSeqExtensionFailsClosed(t *testing.T) {
 	for _, fn := range []string{"Holder.PlaceThenReassign", "Holder.ElemValue", "Holder.SwitchBreak", "Holder.TagSwitch", "Holder.AtomicSwap",
-		"Holder.Sleepy", "Holder.CallsTimed", "Holder.AtomicOrder", "Holder.AppendStructs"} {
+		"Holder.Sleepy", "Holder.CallsTimed", "Holder.AtomicOrder", "Holder.AppendStructs", "Holder.CondWrites"} {
 		_, err := Translate(".", TransSpec{Dir: "internal/refused", Structs: []string{"pair", "Holder"}, Funcs: []string{fn},
 			TimedTail: []string{"Holder.Timed"}})
 		if err == nil || !strings.Contains(err.Error(), "unsupported") || !strings.Contains(err.Error(), "seq.go:") {
